@@ -45,7 +45,7 @@ def eval_cases(ctx, cases, shard=100):
         if not m:
             ctx.tie_problems.append({"what": "could not parse the model's answer", "detail": out[-500:]})
             continue
-        for a, b in re.findall(r"\((\d+),\s*(\d+)\)", m.group(1)):
+        for a, b in re.findall(r"\(\s*(\d+)(?:%nat)?\s*,\s*(\d+)(?:%nat)?\s*\)", m.group(1)):
             mism.append((part[int(a)], int(b)))
     return mism, len(jobs)
 
